@@ -52,6 +52,8 @@ pub struct Context {
     define_regex: Regex,
     pub literal_strings: Vec<String>,
     literal_strings_number: u32,
+    // Set by replace_all when it gives up on an expansion that does not reach a fixed point
+    runaway_expansion: std::cell::Cell<bool>,
 }
 
 impl Context {
@@ -68,7 +70,8 @@ impl Context {
             regexes: Vec::new(),
             define_regex: Regex::new(r"([a-zA-Z_][a-zA-Z0-9_]*)(?:\(\s*((?:(?:[a-zA-Z_][a-zA-Z0-9_]*)\s*,\s*)*(?:(?:[a-zA-Z_][a-zA-Z0-9_]*))*)\s*\))?\s*(.*)").unwrap(),
             literal_strings: Vec::new(),
-            literal_strings_number: 0
+            literal_strings_number: 0,
+            runaway_expansion: std::cell::Cell::new(false),
         };
         c.regex_sets.push(RegexSet::empty());
         c.defs_ex.push(Vec::new());
@@ -189,8 +192,16 @@ impl Context {
         let mut constants = Vec::new();
         let mut res = Self::mask_char_constants(s, &mut constants);
         let mut changed;
+        let mut passes = 0;
         loop {
             changed = false;
+            // A macro applied to its own name (`#define G(f) f(f)` then `G(G)`) never reaches a
+            // fixed point: give up and let the caller report it
+            passes += 1;
+            if passes > 1000 || res.len() > 1_000_000 {
+                self.runaway_expansion.set(true);
+                break;
+            }
             for (i, set) in self.regex_sets.iter().enumerate() {
                 for idx in set.matches(s).into_iter() {
                     let x = self.regexes[i][idx]
@@ -596,6 +607,14 @@ pub fn process<I: BufRead, O: Write>(
                     }
                     let buf = &caps[3];
                     let mut value = context.replace_all(buf);
+                    if context.runaway_expansion.replace(false) {
+                        return Err(Error::Syntax {
+                            filename: filename.clone(),
+                            included_in: included_in.clone(),
+                            line,
+                            msg: "Macro expansion does not terminate".to_string(),
+                        });
+                    }
                     // A body that still names its own macro after expansion (directly or through
                     // earlier macros) would make replace_all substitute forever
                     if Regex::new(&format!("\\b{}\\b", mcro))
@@ -651,6 +670,14 @@ pub fn process<I: BufRead, O: Write>(
                 }
             } else {
                 let new_line = context.replace_all(&uncommented_buf);
+                if context.runaway_expansion.replace(false) {
+                    return Err(Error::Syntax {
+                        filename: filename.clone(),
+                        included_in: included_in.clone(),
+                        line,
+                        msg: "Macro expansion does not terminate".to_string(),
+                    });
+                }
                 let substr = new_line.trim();
                 if substr.starts_with('#') {
                     let mut parts = substr.split("//").next().unwrap().splitn(2, ' ');
